@@ -137,7 +137,12 @@ def _accompanied(fn, stmt, field):
     return rec(fn)
 
 
-def _resets(prog, cls_q, fi, field, depth=0) -> bool:
+def _mentions_epsilon(test) -> bool:
+    return any(isinstance(x, ast.Call) and (getattr(x.func, "id", None) == "Epsilon" or getattr(x.func, "attr", None) == "Epsilon")
+               for x in ast.walk(test))
+
+
+def _resets(prog, cls_q, fi, field, depth=0, eps_only=False) -> bool:
     """the method resets self.<field>: by a top-level statement (or a top-level call that does), or next to every
     statement in which it writes other state of the object (resets inside the branches that actually change something)"""
     writes = _state_writes(fi.node, field)
@@ -148,6 +153,12 @@ def _resets(prog, cls_q, fi, field, depth=0) -> bool:
         stmts.append(st)
         if isinstance(st, ast.For):          # `for t in ts: self.add_transition(..)`: the state only changes inside
             stmts.extend(st.body)
+    if eps_only:
+        # the cached value was computed from the epsilon edges alone: a mutator that resets it whenever the edge it adds /
+        # removes is an epsilon edge (`if to_symbol(symb) == Epsilon(): self._f.clear()`) resets it whenever it matters
+        for st in list(stmts):
+            if isinstance(st, ast.If) and _mentions_epsilon(st.test):
+                stmts.extend(st.body)
     for st in stmts:
         if isinstance(st, ast.Assign) and any(_is_self_attr(t, field) for t in st.targets) and _is_reset_value(st.value):
             return True
@@ -164,7 +175,7 @@ def _resets(prog, cls_q, fi, field, depth=0) -> bool:
                 elif isinstance(f.value, ast.Call) and isinstance(f.value.func, ast.Name) and f.value.func.id == "super" \
                         and fi.cls is not None:
                     callee = prog.find_method(cls_q, f.attr, after=fi.cls.qname)
-                if callee is not None and _resets(prog, cls_q, callee, field, depth + 1):
+                if callee is not None and _resets(prog, cls_q, callee, field, depth + 1, eps_only):
                     return True
     return False
 
@@ -176,7 +187,61 @@ def _written_fields(interp, fi, cls_q):
     return {l[1][0] for _ev, _ch, l in writes(summ) if l[0] == "self" and l[1]}
 
 
-def judge(prog, abstract, cls_q: str, field: str, interp=None, dep_fields=None) -> Tuple[Optional[bool], str]:
+def _uses_field(fn, field) -> bool:
+    return any(_is_self_attr(x, field) for x in ast.walk(fn))
+
+
+def _per_call_scratch(prog, fam, field) -> bool:
+    """`self._f` is working storage of one call: every public method of the class family from which a use of the field
+    can be reached (through self.method() calls, three levels) assigns it a fresh value at the top level of its own body
+    (`self._f = {}` / `= Helper(..)`), outside any branch - whatever an earlier call left there is never read."""
+    methods = {}
+    for q in fam:
+        for m in prog.classes[q].methods.values():
+            methods.setdefault(m.name, []).append(m)
+    users = {n for n, ms in methods.items() if n != "__init__" and any(_uses_field(m.node, field) for m in ms)}
+    if not users:
+        return False
+
+    def reaches(m, depth=0, seen=None):
+        seen = seen or set()
+        if m.name in users:
+            return True
+        if depth >= 3 or m.name in seen:
+            return False
+        seen = seen | {m.name}
+        for c in ast.walk(m.node):
+            if isinstance(c, ast.Call) and isinstance(c.func, ast.Attribute) and isinstance(c.func.value, ast.Name) and \
+                    c.func.value.id in ("self", "cls") and c.func.attr in methods:
+                if any(reaches(m2, depth + 1, seen) for m2 in methods[c.func.attr]):
+                    return True
+        return False
+
+    def resets_first(m):
+        for st in m.node.body:
+            if isinstance(st, ast.Assign) and any(_is_self_attr(t, field) for t in st.targets) and \
+                    isinstance(st.value, (ast.Call, ast.Dict, ast.List, ast.Set, ast.Constant, ast.DictComp, ast.ListComp, ast.SetComp)):
+                return True
+            if _uses_field(st, field):
+                return False            # used before it is re-initialised
+        return False
+    n = 0
+    for name, ms in methods.items():
+        if name.startswith("_") and not (name.startswith("__") and name.endswith("__")):
+            continue
+        if name == "__init__":
+            continue
+        for m in ms:
+            if m.kind == "property" and not reaches(m):
+                continue
+            if reaches(m):
+                n += 1
+                if not resets_first(m):
+                    return False
+    return n > 0
+
+
+def judge(prog, abstract, cls_q: str, field: str, interp=None, dep_fields=None, eps_only=False) -> Tuple[Optional[bool], str]:
     """(True, reason) the field is a correctly invalidated cache; (False, reason) it is a cache that goes stale;
     (None, reason) it is not a cache at all."""
     if not field.startswith("_") or field.startswith("__"):
@@ -194,6 +259,9 @@ def judge(prog, abstract, cls_q: str, field: str, interp=None, dep_fields=None) 
                                 continue
                             if _under_own_test(m.node, node, field):
                                 fills.append((q, m))
+                            elif _per_call_scratch(prog, fam, field):
+                                return True, "per-call scratch table: every public method that can reach a use of it " \
+                                             "re-initialises it first, so no value survives from one call to the next"
                             else:
                                 return None, "%s.%s assigns self.%s unconditionally" % (prog.classes[q].name, m.name, field)
                         elif isinstance(t, ast.Subscript) and any(_is_self_attr(x, field) for x in ast.walk(t.value)):
@@ -222,8 +290,11 @@ def judge(prog, abstract, cls_q: str, field: str, interp=None, dep_fields=None) 
                 if not (_written_fields(interp, mf, q) & set(dep_fields)):
                     continue
             n_mut += 1
-            if not _resets(prog, q, mf, field):
+            if not _resets(prog, q, mf, field, eps_only=eps_only):
                 missing.append("%s.%s" % (prog.classes[q].name, name))
+    if missing and _per_call_scratch(prog, fam, field):
+        return True, "per-call scratch table: every public method that can reach a use of it re-initialises it first, so " \
+                     "no value survives from one call to the next"
     if missing:
         return False, "mutators that do not reset it: " + ", ".join(sorted(set(missing))[:8])
     if n_mut == 0:
